@@ -286,10 +286,20 @@ theorem plainFilteredBody_logsAs (cfg : Cfg) :
     have : cfg.cfilters = [] := List.isEmpty_iff.mp he
     rw [this]
     exact plainBody_logsAs cfg s
-  · refine ⟨[], fun _ h => absurd h List.not_mem_nil, ?_⟩
-    simp only
-    rw [(runChain_spec _ _ _ s).1]
-    rfl
+  · -- container.go:393: the chain, then (recovery on, a panic unwinding) the recover handler
+    have nil : AllRecover [] := fun _ h => absurd h List.not_mem_nil
+    have hl := (runChain_spec (label .cfilter cfg.cfilters) ⟨.plain 0, cfg.plainScript⟩ {} s).1
+    generalize runChain (label .cfilter cfg.cfilters) ⟨.plain 0, cfg.plainScript⟩ {} s = rr at hl
+    obtain ⟨cx1, s1, p⟩ := rr
+    simp only at hl ⊢
+    cases p with
+    | none => exact ⟨[], nil, by simp only [hl]; rfl⟩
+    | some v =>
+      simp only
+      split
+      · obtain ⟨r, hr, h⟩ := runRecover_log cfg s1
+        exact ⟨r, hr, by rw [h, hl, List.append_assoc]⟩
+      · exact ⟨[], nil, by simp only [hl]; rfl⟩
 
 /-- what `serve` runs on the initial state, by entry point -/
 def entryBody (E : ReEnv) (cfg : Cfg) (e : Entry) (sr : SReq) : St → St × Option Str × Nat :=
